@@ -46,6 +46,8 @@ def gen(rng):
         wm["lock"] = core.lock_text(0xFFFFFFFF - rng.randrange(0, 3))   # the ID range runs out during the run
     knobs = {"threads": rng.randrange(1, 5), "config_arg": rng.choice(["rel", "abs"])}
     knobs = scen.env_knobs(rng, knobs)
+    if rng.random() < 0.15:
+        knobs["inherit_ignored"] = rng.choice([[2], [15], [2, 15]])
     base = {"seed": rng.getrandbits(48) | 1, "perm": True, "faults": []}
     return wm, knobs, base, check
 
